@@ -43,7 +43,7 @@ PLAN = {
         custom("C15:enumerations", _enumerations),
         replays("C15"), replays("C15_enum"),
         tape("C15_enum", 0, mode="ex", name="C15_enum:all-enumerators"),
-        tape("C15", 20000, size=300),
+        tape("C15", 14000, size=300),
         custom("C15:rule-coverage", _rule_coverage),
     ],
     "thorough": [
